@@ -56,7 +56,10 @@ pub fn run(case: &Value) -> Value {
         }
     }
     let mut scanner = c.finalize();
-    scanner.set_scan_params(bvh::scan::build_params(&case["params"]));
+    // a generated condition may be slow by construction; the timeout turns that into a scan error (a legal outcome)
+    scanner.set_scan_params(
+        bvh::scan::build_params(&case["params"]).timeout_duration(Some(std::time::Duration::from_secs(20))),
+    );
     let (err, res) = if case["layout"].is_array() {
         take(scanner.scan_fragmented(modval::Layout::new(&input, &case["layout"])))
     } else {
